@@ -211,6 +211,7 @@ struct Value {
                     fprintf(stderr, "parse error, expressions nested more than 256 levels deep\n");
                     exit(1);
                 }
+                const Value as_is(*this);
                 std::string val(&v[i], vallen);
                 *this = Value(val.c_str(), vallen);
                 // hex(hex(hex(...))) doubles its argument with every level: bound what a function is applied to
@@ -221,6 +222,7 @@ struct Value {
                 }
                 if (!do_exec(fun)) {
                     fprintf(stderr, "unknown function %s: expression left as is\n", fun);
+                    *this = as_is; // "left as is": not replaced by its argument
                 } else return;
             }
         }
